@@ -157,6 +157,10 @@ def run_doc_case(a):
             argv = [cli, "tauri-typegen", "init", "-p", "./src-tauri", "-g", settings["output_path"], "-v", settings["validation_library"]]
             if settings["verbose"]:
                 argv.append("--verbose")
+            # the document it is pointed at, spelled in every way that names that file (no -o: the project's tauri.conf.json)
+            spell = [None, "tauri.conf.json", "src-tauri/tauri.conf.json", "./src-tauri/tauri.conf.json", docp, "src-tauri/../src-tauri/tauri.conf.json"][(idx // 3) % 6]
+            if spell:
+                argv += ["-o", spell]
             r = common.run(argv, cwd=root)
             written = {"project_path": "./src-tauri", "output_path": settings["output_path"], "validation_library": settings["validation_library"],
                        "verbose": bool(settings["verbose"]), "visualize_deps": False, "include_private": False, "force": False,
